@@ -163,6 +163,9 @@ def check(pid, tier, seed, jobs):
     loader.install()
     mod = importlib.import_module(mod_name)
     insts = mod.instances(tier)
+    only = os.environ.get('VERIF_ONLY')
+    if only:
+        insts = [i for i in insts if only in i['name']]
     names = [i['name'] for i in insts]
     # seed only affects the order of the work list
     import random
